@@ -107,6 +107,7 @@ func (k *c05) RunCase(c *core.Ctx, i int) {
 	o.AssertFresh = r.Intn(2) == 0
 	o.Accruals = r.Intn(3) == 0
 	o.Perf = r.Intn(3) == 0
+	o.Depth1 = r.Intn(4) == 0
 	o.Days = 3 + r.Intn(10)
 	j, info := gen.Accepted(r, o)
 	rejected := false
